@@ -301,7 +301,7 @@ def _caller_site(depth):
     while f is not None:
         fn = f.f_code.co_filename
         if '/sx/' not in fn:
-            return '%s:%d' % (fn.replace('/repo/src/exabgp/', ''), f.f_lineno)
+            return '%s:%d' % (fn.split('/src/exabgp/')[-1], f.f_lineno)
         f = f.f_back
     return '?'
 
